@@ -27,9 +27,10 @@ import (
 )
 
 const (
-	envStage = "VERIF_C14_STAGE"
-	envCase  = "VERIF_C14_CASE"
-	envOut   = "VERIF_C14_OUT"
+	envStage  = "VERIF_C14_STAGE"
+	envCase   = "VERIF_C14_CASE"
+	envOut    = "VERIF_C14_OUT"
+	envStream = "VERIF_C14_STREAM"
 
 	nonceBase = uint64(1) << 40
 )
